@@ -45,9 +45,10 @@ def fault_plan(cfg, ref, rnd, tier):
     plan = []
     probe_calls = [k for k, (tag, _, _) in enumerate(ref.glog) if tag != 5 and k >= 1]
     for n, k in enumerate(probe_calls):
-        plan.append({"site": ("call", k), "kind": ("interrupt", None)})
+        # every other fault point with a slow forward model (0.3 s of the sampler's clock per call of the user's code)
+        plan.append({"site": ("call", k), "kind": ("interrupt", None), "slow": n % 2 == 0})
         name, cls, fam = EXC_KINDS[(n + cfg["P"]) % len(EXC_KINDS)]
-        plan.append({"site": ("call", k), "kind": (fam, name)})
+        plan.append({"site": ("call", k), "kind": (fam, name), "slow": n % 2 == 1})
     for i in range(cfg["P"]):
         if i % cfg["t"] == 0:
             for where in ("append_entry", "append_exit"):
@@ -83,9 +84,14 @@ def run_faulty(cfg, wd, fp):
     if site[0] == "timeout":
         cfg2["timeout_after"] = site[1]
 
+    if site[0] == "call" and fp.get("slow"):
+        cfg2["slow_calls"] = True      # a slow forward model: every call of the target / mass matrix takes 0.3 s of the sampler's clock
+
     def hook(sampler, target, rr):
         if site[0] == "call":
             def fault(knd, k):
+                if fp.get("slow"):
+                    rr.clock.now += 0.3
                 if k == site[1] and "exc" not in box:
                     box["exc"] = make_exc(kind)
                     raise box["exc"]
